@@ -1,4 +1,5 @@
 -- root of the library: every property file (built by `lake build`)
+import LdarModel.Props.C01
 import LdarModel.Props.C02
 import LdarModel.Props.C03
 import LdarModel.Props.C04
